@@ -215,7 +215,7 @@ def cmp_valid(expect, r):
         return None if str(v).startswith("ValueError") else f"impl ValueError, model validate {v}"
     if v != "ok":
         return f"impl accepted ({expect['outcome']}), model validate {v}"
-    return wire.cmp_solve(expect, r["solve"])
+    return None            # what an ACCEPTED game is solved to is the business of C01..C06, not of this property
 
 
 def solvable_pair():
